@@ -58,6 +58,18 @@ deriving DecidableEq, Repr, Inhabited
 
 def one : BitVec 64 := 1#64
 
+/-- The seven conditional field copies of the `*Struct` case (options.go:158-180): each value
+slot is copied iff the source has the flag guarding it. -/
+def Struct.copySlots (d src : Struct) : Struct :=
+  { flags := d.flags
+    indent := if src.flags.has F.indent then src.indent else d.indent
+    indentPrefix := if src.flags.has F.indentPrefix then src.indentPrefix else d.indentPrefix
+    byteLimit := if src.flags.has F.byteLimit then src.byteLimit else d.byteLimit
+    depthLimit := if src.flags.has F.depthLimit then src.depthLimit else d.depthLimit
+    marshalers := if src.flags.has F.marshalers then src.marshalers else d.marshalers
+    unmarshalers := if src.flags.has F.unmarshalers then src.unmarshalers else d.unmarshalers
+    format := if src.flags.has F.formatTag then src.format else d.format }
+
 /-- One iteration of the loop of `Struct.Join` (options.go:133-186, options.go:273-286). -/
 def Struct.joinOne (dst : Struct) : Opt → Struct
   | .nil => dst
@@ -73,16 +85,7 @@ def Struct.joinOne (dst : Struct) : Opt → Struct
   | .unmarshalers id => { dst with flags := dst.flags.set (F.unmarshalers ||| one), unmarshalers := id }
   | .struct src =>
       let d := { dst with flags := dst.flags.join src.flags }
-      if src.flags.has F.nonBoolean then
-        let d := if src.flags.has F.indent then { d with indent := src.indent } else d
-        let d := if src.flags.has F.indentPrefix then { d with indentPrefix := src.indentPrefix } else d
-        let d := if src.flags.has F.byteLimit then { d with byteLimit := src.byteLimit } else d
-        let d := if src.flags.has F.depthLimit then { d with depthLimit := src.depthLimit } else d
-        let d := if src.flags.has F.marshalers then { d with marshalers := src.marshalers } else d
-        let d := if src.flags.has F.unmarshalers then { d with unmarshalers := src.unmarshalers } else d
-        let d := if src.flags.has F.formatTag then { d with format := src.format } else d
-        d
-      else d
+      if src.flags.has F.nonBoolean then d.copySlots src else d
 
 def Struct.join (dst : Struct) (srcs : List Opt) : Struct := srcs.foldl Struct.joinOne dst
 
